@@ -497,6 +497,12 @@ func (vc *VC) atReturn(st *State, ret *ssa.Return) {
 		}
 	}
 	vc.bindLetsOld(env, c)
+	for _, g := range vc.contract.Ghosts {
+		if g.Callee == "@return" {
+			vc.ghostAssign(st, env, g.Target, g.Value)
+			env.heap = st.heap
+		}
+	}
 	for _, en := range c.Ensures {
 		if en.Free {
 			continue
@@ -1238,7 +1244,7 @@ func (vc *VC) siteHooks(st *State, key string, instr ssa.Instruction, before boo
 		st.assume = append(st.assume, g)
 	}
 	for _, g := range vc.contract.Ghosts {
-		if g.Before != before || !match(g.Callee, g.Ordinal) {
+		if g.Callee == "@return" || g.Before != before || !match(g.Callee, g.Ordinal) {
 			continue
 		}
 		env := vc.fnEnvNames(st)
